@@ -60,7 +60,10 @@ class Recorder:
         self.task_obj = {}
         self.crash = None
         self.wire_ctx = []  # (context id the variable pointed to, name hint) per WireStart, for linking sub-requests
-        self.abandoned = []  # event numbers of top-level exits that left live child tasks behind (outside the usage discipline)
+        self.abandoned = []  # event numbers of steps that left live child tasks behind (outside the usage discipline)
+        self.joined = set()  # finished child tasks whose Join event has been recorded
+        self.depth = {}  # task id -> number of request contexts it has open itself
+        self.spawn_depth = {}  # task id -> depth of its creator when it was created
         self.hint = None
 
     # -- tasks
@@ -75,6 +78,7 @@ class Recorder:
         if parent is not None and parent in self.tasks:
             pid = self.tasks[parent]
             self.parent[tid] = pid
+            self.spawn_depth[tid] = self.depth.get(pid, 0)
             self.event("Spawn", pid, u=tid, ucur=self.cur_of(task))
             task.add_done_callback(self._done)
         else:
@@ -84,6 +88,14 @@ class Recorder:
     def _done(self, task):
         tid = self.tasks[task]
         self.event("Join", self.parent[tid], u=tid)
+        self.joined.add(tid)
+        if self.live_children(tid, 0):
+            # the task ended (by an exception) without awaiting the tasks it created
+            self.abandoned.append(len(self.events))
+
+    def live_children(self, tid, depth):
+        """Unfinished tasks that `tid` created while it had at least `depth` request contexts open."""
+        return [u for u, p in self.parent.items() if p == tid and u not in self.joined and self.spawn_depth.get(u, 0) >= depth]
 
     def me(self):
         t = asyncio.current_task()
@@ -169,18 +181,6 @@ class Recorder:
             }
         )
 
-    def live_descendants(self, root):
-        """Tasks created (transitively) by `root` that have not finished."""
-        res = []
-        for tid, task in self.task_obj.items():
-            if tid == root or task.done():
-                continue
-            p = tid
-            while self.parent.get(p, 0):
-                p = self.parent[p]
-            if p == root:
-                res.append(tid)
-        return res
 
 
 class ObservedManager:
@@ -195,17 +195,20 @@ class ObservedManager:
         self._real.__enter__()
         rec = self._rec
         self.n = rec.register(self._real)
-        rec.event("Enter", rec.me(), par=rec.ptr(self._real.token.old_value))
+        me = rec.me()
+        rec.depth[me] = rec.depth.get(me, 0) + 1
+        rec.event("Enter", me, par=rec.ptr(self._real.token.old_value))
         return self
 
     def __exit__(self, exc_type, exc_val, exc_tb):
         r = self._real.__exit__(exc_type, exc_val, exc_tb)
         rec = self._rec
         me = rec.me()
-        ev = rec.event("Exit", me, raised=exc_type is not None)
-        if ev["cur"] == 0 and rec.parent.get(me, 0) == 0 and rec.live_descendants(me):
-            # a top-level request context is left while tasks created inside it still run (cancelled, not awaited)
+        rec.event("Exit", me, raised=exc_type is not None)
+        if rec.live_children(me, rec.depth.get(me, 0)):
+            # the block is left while tasks created inside it still run (cancelled, not awaited)
             rec.abandoned.append(len(rec.events))
+        rec.depth[me] = rec.depth.get(me, 0) - 1
         return r
 
     @property
@@ -871,12 +874,12 @@ def random_composite(rnd, max_clients=3):
             budget[0] = 8
             requests = stream(0)
             if rnd.random() < 0.4:
-                # one sub-request of this composite request fails; half of the time one that is a direct item of the
+                # one sub-request of this composite request fails; mostly one that is a direct item of the
                 # request list (all earlier streams have been awaited, nothing else is in flight)
                 cand = []
                 all_ops(requests, True, cand)
                 direct = [c for c in cand if c[1]]
-                pick = rnd.choice(direct) if direct and rnd.random() < 0.5 else (rnd.choice(cand) if cand else None)
+                pick = rnd.choice(direct) if direct and rnd.random() < 0.7 else (rnd.choice(cand) if cand else None)
                 if pick:
                     pick[0]["fail"] = rnd.choice(["timeout", "api400", "api429"])
             iters.append({"at": at, "max_conn": rnd.choice([0, 0, 1, 2, 3]), "requests": requests})
